@@ -419,6 +419,8 @@ def monitor_c21(sc, out):
         kind = answer_kind_py(d["answer"])
         if RESP_KIND[resp] != kind:
             return ("op %d: registered response %s but what was done is %s" % (k, RESP_KIND[resp], kind), pay)
+        if kind == "nak" and not nts:
+            return ("op %d: an NTS NAK was sent but the datagram is registered without the NTS flag" % k, pay)
         plain = o["base"] in ("p3", "p4", "p5", "p4u") and not any(m[0] == "a" for m in o["muts"])
         if plain and nts:
             return ("op %d: NTS flag set for a plain request" % k, pay)
